@@ -2,15 +2,17 @@
 # Usage: tools/seed_run.sh <seed-dir-with-patch.diff> <check ids...>
 # Applies the seeded change to /repo, runs the given checks, and undoes it straight afterwards.
 S="$1"; shift
-cd /verif
+cd "$(dirname "$0")/.."
+V=$(pwd)
+R=${VERIF_REPO:-/repo}
 # evidence files written while a seeded change is applied must not survive (they describe a mutated tree)
-rm -rf .cache/evidence_backup && cp -r evidence .cache/evidence_backup
-git -C /repo apply "$S/patch.diff" || { echo "patch does not apply"; exit 2; }
+mkdir -p .cache; rm -rf .cache/evidence_backup && cp -r evidence .cache/evidence_backup
+git -C $R apply "$S/patch.diff" || { echo "patch does not apply"; exit 2; }
 for c in "$@"; do
   echo "--- ./check $c (seed $(basename $S))"
   timeout 1200 ./check $c 2>&1 | grep -E "VIOLATION|KNOWN-FINDING|OK \(|Traceback|Error" | head -6
-  git -C /repo diff --quiet && echo "!! the patch vanished from /repo during the run (concurrent checkout) — result not valid"
+  git -C $R diff --quiet && echo "!! the patch vanished from /repo during the run (concurrent checkout) — result not valid"
 done
-git -C /repo apply -R "$S/patch.diff" 2>/dev/null || git -C /repo checkout -- .
-git -C /repo status --short | head -3
+git -C $R apply -R "$S/patch.diff" 2>/dev/null || git -C $R checkout -- .
+git -C $R status --short | head -3
 rm -rf evidence && mv .cache/evidence_backup evidence
